@@ -2,7 +2,7 @@ import Posmint.Lemmas.ChainSlash
 /-!
 Preservation of the signing-info component of `Inv` by every operation.
 -/
-namespace Posmint.Chain
+namespace Posmint.Chain.C
 
 /-! ### the working invariant and the "monotone" relation on validator records -/
 
@@ -723,4 +723,4 @@ theorem step_signOK (s : State) (op : Op) (r : State × List (Addr × Int) × Bo
     injection hs with hs; subst hs
     exact runTx_signInv s mode t hi
 
-end Posmint.Chain
+end Posmint.Chain.C
